@@ -5,6 +5,7 @@ R="$1"; shift; SEEDS="${@:-21 22 23}"
 cd "$(dirname "$0")"
 for d in seeded/*/; do
   id=$(basename $d)
+  if [ -n "${SEEDFILTER:-}" ] && ! echo "$id" | grep -Eq "$SEEDFILTER"; then continue; fi
   prop=$(python3 -c "import json;print(json.load(open('$d/meta.json')).get('property'))" 2>/dev/null)
   [ -z "$prop" -o "$prop" = "None" ] && continue
   ( cd $R && git checkout -q -- . && (git apply --3way $OLDPWD/$d/patch.diff 2>/dev/null || git apply $OLDPWD/$d/patch.diff 2>/dev/null) && git reset -q ) || { echo "$id $prop APPLY-FAILED"; ( cd $R && git checkout -q -- . ); continue; }
